@@ -90,6 +90,102 @@ pub fn walk<'a>(section: &'a [u8], mut it: TypeLengthValues<'a>, entry: &str) ->
     Ok(())
 }
 
+fn same_item(section: &[u8], w: &Item, got: Option<&Result<ppp::v2::TypeLengthValue<'_>, E2>>) -> bool {
+    match (w, got) {
+        (Item::Ok { kind, start, end }, Some(Ok(t))) => t.kind == *kind && t.value.as_ref() == &section[*start..*end],
+        (Item::Short, Some(Err(_))) => true,
+        (Item::Overrun { kind, len }, Some(Err(E2::InvalidTLV(k, l)))) => k == kind && l == len,
+        _ => false,
+    }
+}
+
+fn show_item(got: Option<&Result<ppp::v2::TypeLengthValue<'_>, E2>>) -> String {
+    match got {
+        None => "None".to_string(),
+        Some(Ok(t)) => format!("Some(Ok(kind {}, {} value bytes))", t.kind, t.value.len()),
+        Some(Err(e)) => format!("Some(Err({:?}))", e),
+    }
+}
+
+/// The same sequence must come out however the iterator is driven: through `nth`, `skip`, `step_by`, `last`,
+/// `count`, `fold`, `collect`, a clone taken half-way, and `size_hint` must never contradict it. (All of these
+/// default to repeated `next()`; the check matters when a specialised method is added to the iterator.)
+pub fn walk_adaptors<'a>(section: &'a [u8], mk: &dyn Fn() -> TypeLengthValues<'a>, entry: &str) -> Verdict {
+    let want = tlv_ref(section);
+    let n = want.len();
+    if n > 48 {
+        return Ok(());
+    }
+    let fail = |what: &str, exp: String, obs: String| Err(Fail::new(what, shape_tlv(section), entry, exp, obs));
+    let cap = section.len() / 3 + 4;
+    // nth(k), then the item after it
+    let mut ks: Vec<usize> = vec![0, 1, 2, 3, n.saturating_sub(1), n, n + 1, n + 5];
+    ks.sort();
+    ks.dedup();
+    for &k in &ks {
+        let mut it = mk();
+        let got = it.nth(k);
+        let ok = if k < n { same_item(section, &want[k], got.as_ref()) } else { got.is_none() };
+        if !ok {
+            return fail("nth", format!("nth({}) = {}", k, if k < n { format!("item {}: {:?}", k, want[k]) } else { format!("None ({} items in all)", n) }), show_item(got.as_ref()));
+        }
+        let after = it.next();
+        let ok = if k + 1 < n { same_item(section, &want[k + 1], after.as_ref()) } else { after.is_none() };
+        if !ok {
+            return fail("next-after-nth", format!("after nth({}): {}", k, if k + 1 < n { format!("item {}", k + 1) } else { "None".to_string() }), show_item(after.as_ref()));
+        }
+    }
+    // skip(k) / step_by(s): positions and counts
+    for &k in &ks {
+        let got: Vec<_> = mk().skip(k).take(cap).collect();
+        let exp = n.saturating_sub(k);
+        if got.len() != exp || got.iter().enumerate().any(|(i, g)| !same_item(section, &want[k + i], Some(g))) {
+            return fail("skip", format!("skip({}) yields the {} items from {} on", k, exp, k), format!("{} items; first {}", got.len(), show_item(got.first())));
+        }
+    }
+    for s in [2usize, 3] {
+        let got: Vec<_> = mk().step_by(s).take(cap).collect();
+        let exp: Vec<usize> = (0..n).step_by(s).collect();
+        if got.len() != exp.len() || got.iter().zip(&exp).any(|(g, i)| !same_item(section, &want[*i], Some(g))) {
+            return fail("step_by", format!("step_by({}) yields items {:?}", s, exp), format!("{} items; last {}", got.len(), show_item(got.last())));
+        }
+    }
+    // count / last / fold / collect
+    let c = mk().count();
+    if c != n {
+        return fail("count", format!("count() = {}", n), format!("{}", c));
+    }
+    let l = mk().last();
+    let ok = if n == 0 { l.is_none() } else { same_item(section, &want[n - 1], l.as_ref()) };
+    if !ok {
+        return fail("last", format!("last() = {}", if n == 0 { "None".to_string() } else { format!("{:?}", want[n - 1]) }), show_item(l.as_ref()));
+    }
+    let f = mk().fold(0usize, |a, _| a + 1);
+    let v: Vec<_> = mk().collect();
+    let mut fe = 0usize;
+    mk().for_each(|_| fe += 1);
+    if f != n || v.len() != n || fe != n {
+        return fail("fold-collect", format!("{} items through fold, collect and for_each", n), format!("fold {}, collect {}, for_each {}", f, v.len(), fe));
+    }
+    // size_hint never contradicts what is left; a clone taken half-way yields the same rest
+    let mut it = mk();
+    for i in 0..=n {
+        let (lo, hi) = it.size_hint();
+        let left = n - i;
+        if lo > left || hi.map_or(false, |h| h < left) {
+            return fail("size_hint", format!("bounds that contain the {} items left", left), format!("({}, {:?})", lo, hi));
+        }
+        if i == n / 2 {
+            let rest: Vec<_> = it.clone().take(cap).collect();
+            if rest.len() != left || rest.iter().enumerate().any(|(j, g)| !same_item(section, &want[i + j], Some(g))) {
+                return fail("clone-midway", format!("a clone taken after {} items yields the remaining {}", i, left), format!("{} items", rest.len()));
+            }
+        }
+        let _ = it.next();
+    }
+    Ok(())
+}
+
 fn classify(section: &[u8], st: &mut Stats) {
     let items = tlv_ref(section);
     let oks = items.iter().filter(|i| matches!(i, Item::Ok { .. })).count();
@@ -112,7 +208,10 @@ fn classify(section: &[u8], st: &mut Stats) {
 pub fn judge_slice(section: &Vec<u8>, st: &mut Stats) -> Verdict {
     st.eval();
     classify(section, st);
-    match crate::engine::guard(|| walk(section, TypeLengthValues::from(&section[..]), "TypeLengthValues::from(&[u8])")) {
+    match crate::engine::guard(|| {
+        walk(section, TypeLengthValues::from(&section[..]), "TypeLengthValues::from(&[u8])")?;
+        walk_adaptors(section, &|| TypeLengthValues::from(&section[..]), "TypeLengthValues::from(&[u8])")
+    }) {
         Ok(v) => v,
         // the walk demands concrete items here; a panic is none of them (and is C03's business as well)
         Err(p) => Err(Fail::new("panic-instead-of-items", shape_tlv(section), "TypeLengthValues::from(&[u8])", format!("the items {:?}", tlv_ref(section).iter().take(4).collect::<Vec<_>>()), format!("panic: {}", p))),
@@ -151,6 +250,8 @@ pub fn judge_header(x: &Vec<u8>, st: &mut Stats) -> Verdict {
         // `it` borrows from `h`, which borrows from `x`: re-slice so lifetimes line up
         let sec: &[u8] = it.as_bytes();
         walk(sec, h.tlvs(), "Header::tlvs()")?;
+        // the adaptor-driven walks, on an iterator re-made from the very same slice
+        walk_adaptors(sec, &|| h.tlvs(), "Header::tlvs()")?;
         if sec != section {
             return Err(Fail::new("section-content", shape_tlv(section), "Header::tlvs()", "section bytes of the raw input", "different bytes"));
         }
@@ -162,7 +263,33 @@ pub fn judge_header(x: &Vec<u8>, st: &mut Stats) -> Verdict {
 }
 
 fn gen_slice(t: &mut Tape) -> Vec<u8> {
-    match t.weighted(&[4, 3, 2, 1]) {
+    match t.weighted(&[4, 3, 2, 1, 1]) {
+        4 => {
+            // a section that itself begins with (or is) a complete v2 header - read as TLVs it is type 0x0D with
+            // length 0x0A0D - optionally padded so that this first "TLV" is complete, then more TLVs
+            let mut s = gen::gen_v2_header(t).bytes;
+            match t.below(4) {
+                0 => {}
+                1 => {
+                    let want = 3 + 0x0A0D;
+                    if s.len() < want {
+                        let pad = want - s.len();
+                        s.extend(fill(crate::engine::gen_seed(t), pad));
+                    }
+                    s.extend(gen::enc_tlv_list(&gen::gen_tlv_list(t, 64)));
+                }
+                2 => {
+                    let mut pre = gen::enc_tlv_list(&gen::gen_tlv_list(t, 64));
+                    pre.extend_from_slice(&s);
+                    s = pre;
+                }
+                _ => {
+                    let cut = t.below(s.len() as u32 + 1) as usize;
+                    s.truncate(cut.max(12));
+                }
+            }
+            s
+        }
         0 => gen::enc_tlv_list(&gen::gen_tlv_list(t, 70_000)),
         1 => {
             let s = gen::enc_tlv_list(&gen::gen_tlv_list(t, 70_000));
@@ -188,7 +315,7 @@ fn gen_slice(t: &mut Tape) -> Vec<u8> {
         _ => {
             // long random-ish sections with small declared lengths so that many items occur
             let n = t.usize_in(1000, 70_000);
-            let mut s = fill(t.u32() | 1, n);
+            let mut s = fill(crate::engine::gen_seed(t), n);
             let mask = *t.pick(&[0x00u8, 0x01, 0x03]);
             let mut i = 0;
             while i + 2 < s.len() {
